@@ -118,6 +118,10 @@ Preds == IF Hung THEN Append(gpreds, [kind |-> "hang"]) ELSE gpreds
 CaseRec == [cls |-> GCls, ver |-> GVer, lf |-> GLF, at |-> GAT, slack |-> IF GVer >= 3 THEN -1 ELSE GSlack,
             names |-> [j \in 1..GNames |-> [n |-> AllNames[j], home |-> HomeSeq[j]]], padhome |-> PadHome,
             init |-> [j \in 1..GInit |-> AllNames[j]], ops |-> hist,
+            \* storage class of each starting file as the BUILDER writes it: 0 small compressed; 1..6 longer than a sector
+            \* (sectored) x {compressible, incompressible} x {plain, encrypted, fix-key}; rotated by TLC over the histories
+            initcls |-> [j \in 1..GInit |-> (Len(hist) * 3 + Cardinality({i \in 1..Len(hist) : hist[i].op = "add"}) * 5
+                                             + Cardinality({i \in 1..Len(hist) : hist[i].op = "rename"}) + atoi(Env("VERIF_SEED", "1")) + 2 * j) % 7],
             sub |-> IF GSub /\ GNames >= 2 THEN <<[n |-> "b", inside |-> "a"]>> ELSE <<>>, devs |-> devs, preds |-> Preds,
             pres |-> IF Hung THEN Append(gres, "hang") ELSE gres, psr |-> gsr]
 \* ... and the case is printed
